@@ -96,6 +96,13 @@ def step (st : St) (args : List String) : St × String :=
         let i ← a.toNat?; let s ← parseSrc b; let v ← parseVal c; pure (i, s, v)) with
     | some sets =>
       let (s', w) := stepSys st.k isort st.sys sets
+      -- the per-CPU `step` (what the theorems are about) must be the projection of the global walk
+      let projOk := (List.range st.sys.cpus.length).all fun i =>
+        match st.sys.cpus[i]?, s'.cpus[i]? with
+        | some c, some c' =>
+          decide (Breakdown.step st.k c ((sets.filter (·.1 == i)).map (·.2)) = c')
+        | _, _ => false
+      if !projOk then ({ st with sys := s' }, "proj-mismatch") else
       ({ st with sys := s' },
         "tr " ++ showVals (s'.cpus.map (·.tr)) ++ " tri " ++ showVals (s'.cpus.map (·.tri)) ++
         " outs " ++ showVals s'.sort.outs ++ " w " ++ showNats (sortedNodup (w.map (·.1))))
